@@ -74,7 +74,20 @@ POSITIONS = [
     "merge-value-in-lazy-tag-mapping-in-pipeline",
     "merge-value-in-eager-tag-mapping-in-section",
     "merge-value-in-type-mapping",
+    # parts of the file that a loader may be tempted not to look at: a further document of
+    # the stream, top-level entries that do not look like sections
+    "second-document",
+    "second-document-after-empty",
+    "top-level-x-section",
+    "top-level-underscore-section",
+    "top-level-dot-section",
+    "top-level-null-key-section",
 ]
+#: positions at which also a registered tag must not load (more than one document, unknown
+#: sections): there is no control document for them
+NO_CONTROL = {"second-document", "second-document-after-empty", "top-level-x-section",
+              "top-level-underscore-section", "top-level-dot-section",
+              "top-level-null-key-section"}
 
 
 def shapes_for(position):
@@ -251,6 +264,18 @@ def build_document(position, node):
     elif position == "last-value-in-lazy-tag-mapping-in-section":
         section = yt.mapping([("a", yt.mapping([("k", yt.py(1)), ("z", node)],
                                                tag="!VItemL"))])
+    elif position.startswith("second-document"):
+        first = yt.document(yt.mapping([("pipeline", yt.seq(pipeline))]))
+        if position == "second-document-after-empty":
+            first = "--- {}\n"
+        second = yt.document(yt.mapping([("pipeline", yt.seq(pipeline)),
+                                         ("__config_test", yt.mapping([("a", node)]))]))
+        return first + ("" if second.startswith("---") else "---\n") + second
+    elif position.startswith("top-level-") and position.endswith("-section"):
+        name = {"top-level-x-section": "x-anchors", "top-level-underscore-section": "_defaults",
+                "top-level-dot-section": ".hidden",
+                "top-level-null-key-section": "~"}[position]
+        extra_top.append((yt.scalar(name), yt.mapping([("a", node)])))
     elif position.startswith("merge-"):
         plain = yt.mapping([("p", yt.py(1))])
         if position == "merge-list-item-in-section":
@@ -294,10 +319,10 @@ def carries_tag(text, tag):
     import yaml
 
     try:
-        root = yaml.compose(text, Loader=yaml.SafeLoader)
+        roots = list(yaml.compose_all(text, Loader=yaml.SafeLoader))
     except yaml.YAMLError as err:
         raise RuntimeError("generated document is not YAML: %s\n%s" % (err, text))
-    todo, found = [root], False
+    todo, found = [root for root in roots if root is not None], False
     while todo:
         node = todo.pop()
         found = found or node.tag == tag
@@ -582,6 +607,8 @@ def shard(args):
             return acc
         if args[0] == "controls":
             for position in POSITIONS:
+                if position in NO_CONTROL:
+                    continue
                 for shape in shapes_for(position):
                     problem = run_control(position, shape)
                     acc.case(nontrivial_key=None)
@@ -634,7 +661,8 @@ def run(ctx):
                 "pyyaml": __import__("yaml").__version__},
     )
     if ctx.acc.counters.get("controls-loaded", 0) != sum(
-            len(shapes_for(position)) for position in POSITIONS) and \
+            len(shapes_for(position)) for position in POSITIONS
+            if position not in NO_CONTROL) and \
             not ctx.acc.violations:
         raise RuntimeError("controls did not run")
     if ctx.acc.counters.get("canary-selftests-passed", 0) < 9:
